@@ -100,7 +100,7 @@ func tokensConsumeOptional(tokens []token, optional string) []token {
 		return tokens
 	}
 	//if strings.ToLower(tokens[0].str) == strings.ToLower(optional) {
-	if strings.EqualFold(tokens[0].str, optional) {
+	if tokens[0].isBareword && strings.EqualFold(tokens[0].str, optional) {
 		return tokens[1:]
 	}
 	return tokens
